@@ -351,6 +351,34 @@ func parseConsumed(m *model.Model, fn *ssa.Function, b, pred *ssa.BasicBlock) bo
 			}
 		}
 	}
+	// … or the reader's Len() is known to be 0 here (a *strings.Reader / *bytes.Reader asked how
+	// many bytes it has left, after scan)
+	for _, bb := range fn.Blocks {
+		if len(bb.Instrs) == 0 {
+			continue
+		}
+		ifi, ok := bb.Instrs[len(bb.Instrs)-1].(*ssa.If)
+		if !ok {
+			continue
+		}
+		bo, ok := ifi.Cond.(*ssa.BinOp)
+		if !ok {
+			continue
+		}
+		isLen := func(v ssa.Value) bool {
+			c, ok := stripConv(v).(*ssa.Call)
+			if !ok || !m.InstrDominates(scanCall, c) {
+				return false
+			}
+			cal := c.Call.StaticCallee()
+			return cal != nil && cal.Name() == "Len" && cal.Signature.Recv() != nil && cal.Pkg != nil && (cal.Pkg.Pkg.Path() == "strings" || cal.Pkg.Pkg.Path() == "bytes")
+		}
+		if e, ok := zeroOnEdge(bo, isLen); ok {
+			if bb.Succs[e] == at || m.EdgeDominates(bb, e, at) {
+				return true
+			}
+		}
+	}
 	return false
 }
 
